@@ -88,7 +88,9 @@ var Solvers = []Solver{
 	{"z3-new", func(f string, t time.Duration) []string {
 		return []string{"z3-new", fmt.Sprintf("-T:%d", int(t.Seconds())+1), f}
 	}},
-	{"z3", func(f string, t time.Duration) []string { return []string{"z3", fmt.Sprintf("-T:%d", int(t.Seconds())+1), f} }},
+	{"z3", func(f string, t time.Duration) []string {
+		return []string{"z3", fmt.Sprintf("-T:%d", int(t.Seconds())+1), f}
+	}},
 	{"cvc5", func(f string, t time.Duration) []string {
 		return []string{"cvc5", "--lang", "smt2", fmt.Sprintf("--tlimit=%d", t.Milliseconds()), f}
 	}},
